@@ -422,7 +422,7 @@ func genCase(t *rapid.T) Case {
 }
 
 func TestC12(t *testing.T) {
-	n := rec.Scale(400, 10000)
+	n := rec.Scale(400, 40000)
 	g := rapid.Custom(genCase)
 	for i := 0; i < n; i++ {
 		c := g.Example(int(ev.Seed())*1000003 + i)
